@@ -50,6 +50,7 @@ class Func:
     blocks: dict
     is_const: bool = False
     error: str = None
+    param_tys: list = field(default_factory=list)
 
 
 def split_top(s, sep=","):
@@ -434,7 +435,9 @@ def parse_func(header, body):
         rest = h[close + 1:].strip()
         ret = rest[3:].strip() if rest.startswith("->") else "()"
         nparams = len(params)
+        param_tys = [p.split(": ", 1)[1] if ": " in p else "" for p in params]
     else:
+        param_tys = []
         h = header.split(" ", 1)[1]
         k = h.rfind(": ")
         k = _find_top(h, ": ")
@@ -474,7 +477,7 @@ def parse_func(header, body):
             cur.term = item
         else:
             cur.stmts.append(item)
-    return Func(name, header, nparams, ret, local_tys, blocks, is_const)
+    return Func(name, header, nparams, ret, local_tys, blocks, is_const, None, param_tys)
 
 
 def _param_open(h):
